@@ -21,7 +21,7 @@ VERIF = os.path.dirname(os.path.dirname(os.path.abspath(__file__)))
 REPO = "/repo"
 
 
-def run_mutant(m, tier, shards, seed, keep_log):
+def run_mutant(m, tier, shards, seed, keep_log, save_replays=False):
     t0 = time.time()
     root = tempfile.mkdtemp(prefix=f"vf-mut-{m['id']}-", dir="/var/tmp")
     try:
@@ -46,6 +46,8 @@ def run_mutant(m, tier, shards, seed, keep_log):
             env["VF_SHARDS"] = str(shards)
         env["VF_EVIDENCE_DIR"] = os.path.join(root, "evidence")
         env["VF_OUT_DIR"] = os.path.join(root, "out")
+        if save_replays:
+            env["VF_SHRINK"] = "1"
         p = subprocess.run([os.path.join(VERIF, "check"), m["property"], tier], env=env, capture_output=True, text=True)
         out = p.stdout + p.stderr
         first = next((l for l in out.splitlines() if l.startswith("VIOLATION")), "")
@@ -59,6 +61,15 @@ def run_mutant(m, tier, shards, seed, keep_log):
             os.makedirs(os.path.join(VERIF, "out"), exist_ok=True)
             open(os.path.join(VERIF, "out", f"mutant-{m['id']}.log"), "w").write(out)
         status = {0: "SURVIVED", 1: "killed", 2: "harness-error"}.get(p.returncode, f"exit-{p.returncode}")
+        if save_replays and p.returncode == 1:
+            import glob
+            found = sorted(glob.glob(os.path.join(root, "out", f"{m['property']}-*.json")), key=os.path.getsize)
+            if found:
+                dest = os.path.join(VERIF, "replays", m["property"])
+                os.makedirs(dest, exist_ok=True)
+                doc = json.load(open(found[0]))
+                doc["note"] = f"regression case: fails when '{m.get('note', m['id'])}' ({m['id']}); holds on the repaired tree"
+                json.dump(doc, open(os.path.join(dest, f"{m['id']}.json"), "w"), indent=1)
         return dict(m, status=status, wall=round(time.time() - t0, 1), message=msg)
     finally:
         shutil.rmtree(root, ignore_errors=True)
@@ -73,6 +84,7 @@ def main():
     ap.add_argument("--seed", type=int, default=1)
     ap.add_argument("--only", default="")
     ap.add_argument("--log", action="store_true")
+    ap.add_argument("--save-replays", action="store_true", help="shrink and copy the smallest failing case to replays/<ID>/<mutant>.json")
     a = ap.parse_args()
     mutants = []
     for f in a.files:
@@ -81,7 +93,7 @@ def main():
         sel = set(a.only.split(","))
         mutants = [m for m in mutants if m["id"] in sel]
     with ThreadPoolExecutor(a.j) as ex:
-        results = list(ex.map(lambda m: run_mutant(m, a.tier, a.shards, a.seed, a.log), mutants))
+        results = list(ex.map(lambda m: run_mutant(m, a.tier, a.shards, a.seed, a.log, a.save_replays), mutants))
     bad = 0
     for r in results:
         print(f"{r['property']} {r['id']:<28} {r['status']:<14} {r['wall']:>6}s  {r.get('note','')}")
